@@ -4,7 +4,16 @@ import gen
 from props.runner import FileRunner, parse_out
 
 def make_names(rng, n):
-    style = rng.choice(['plain', 'prefix', 'punct', 'hibyte', 'long255'])
+    style = rng.choice(['plain', 'prefix', 'punct', 'hibyte', 'long255', 'caseonly', 'caseonly', 'punctorder'])
+    if style == 'caseonly':      # names that differ only in the case of one letter / in '_' vs 'a' ('_' lies between the cases)
+        base = rng.choice(['1abc_', 'sp|P12', 'Seq', 'x'])
+        pool = [base + t for t in ('A', 'a', 'B', 'b', '_', 'Z', 'z', 'AA', 'Aa', 'aA', 'aa', '0', '[', '{')]
+        rng.shuffle(pool)
+        return [pool[i] if i < len(pool) else 'q%d' % i for i in range(n)]
+    if style == 'punctorder':    # order decided by punctuation / digits / bytes around the letter ranges
+        pool = ['n' + c for c in ' !-./09:@AZ[_`az{~']
+        rng.shuffle(pool)
+        return [pool[i] if i < len(pool) else 'q%d' % i for i in range(n)]
     if style == 'plain':
         return ['seq%d' % (i + 1) for i in range(n)]
     if style == 'prefix':
@@ -64,6 +73,28 @@ def run(ck):
             names = make_names(rng, len(seqs))
             if names[0].startswith('L' * 250):
                 names = ['seq%d' % i for i in range(len(seqs))]   # FASTA names of any length are fine, keep them short here
+            if any(' ' in nm for nm in names):
+                names = [nm.replace(' ', '+') for nm in names]
+            if k % 15 == 7:
+                # > 50 records of unequal lengths, a stop marker / stray gap only in a few of them: where those records
+                # stand in the file must not matter (the aligned/unaligned decision is taken before the sort)
+                n = rng.choice([52, 60, 75])
+                alpha = gen.DNA if kind == 'dna' else gen.PROT
+                root = gen.rand_seq(rng, alpha, rng.range(12, 25))
+                seqs = [gen.mutate(rng, root, alpha, 10, 8) + ('WKW' if kind == 'protein' else '') for _ in range(n)]
+                for j in range(n - rng.range(1, 2), n):      # the marked records come last in the first order, first in the second
+                    seqs[j] = seqs[j] + rng.choice(['*', '-', '.'])
+                names = ['r%d' % i for i in range(n)]
+                fam = 'late-punct>50'
+            elif k % 15 == 3 and len(seqs) >= 2:
+                # equal lengths, names differing only in case: the canonical order rests on the byte-wise name comparison alone
+                alpha = gen.DNA if kind == 'dna' else gen.PROT
+                L = rng.range(8, 30)
+                seqs = [gen.rand_seq(rng, alpha, L) + ('WKW' if kind == 'protein' else '') for _ in range(max(3, len(seqs)))]
+                base = rng.choice(['1abc_', 'Seq', 'sp|Q9'])
+                pool = [base + t for t in ('A', 'a', 'B', 'b', 'AA', 'Aa', 'aA', 'aa', 'C', 'c')]
+                names = [pool[i % len(pool)] + ('' if i < len(pool) else str(i)) for i in range(len(seqs))]
+                fam = 'case-only-names'
             ty = rng.choice([0, 1, 2, 5] if kind == 'dna' else [3, 4, 5])
             thr = rng.choice([1, 8])
             recs = list(zip(names, seqs))
@@ -73,6 +104,8 @@ def run(ck):
                 order = list(range(len(recs)))
                 if p:
                     rng.shuffle(order)
+                if p == 1 and fam == 'late-punct>50':
+                    order = list(range(len(recs)))[::-1]
                 orders.append(order)
                 txt = gen.fasta([recs[i][0] for i in order], [recs[i][1] for i in order])
                 ids.append(fr.add([txt], 'fasta', thr, ty, tag=k))
